@@ -85,7 +85,12 @@ def expect_cols(ctx, it, qual, frame, expected, unchanged=None, samplers=None, w
         want = sym(frame.prefix + cname)
         ctx.count(1)
         if cname in frame.written:
-            v = tm.equivalent(got, want, samplers=samplers, n=12, seed_tag=qual + cname + "u")
+            try:
+                v = tm.equivalent(got, want, samplers=samplers, n=12, seed_tag=qual + cname + "u")
+            except (ValueError, TypeError, tm.EvalError) as e_:
+                # the stored value cannot even be evaluated as a function of this column (it depends on other inputs of other kinds):
+                # it is certainly not "the column unchanged"
+                v = tm.Verdict(False, 0, None, f"not a function of the column alone: {e_}")
             if not v:
                 node = last_store(it, frame, cname) or fn
                 ctx.finding(qual, node, f"{what}: column {cname!r} must not change but becomes {tm.show(got)[:140]}",
